@@ -3,6 +3,7 @@ CONSTANTS
   Dims = {1, 2, 4}
   RotIdx = {1, 6}
   StyleIdx = {1, 2}
+  Recount = FALSE
   Deviations = {}
 INVARIANT TilesExactlyOnce
 INVARIANT InsideBase
